@@ -1,5 +1,402 @@
 package nfs
 
-import "verif/mc"
+import (
+	"fmt"
+	"sort"
+	"strings"
+	"sync"
 
-func scenarios() []*mc.Scenario { return nil }
+	"verif/mc"
+
+	"github.com/buildbarn/go-xdr/pkg/protocols/nfsv4"
+)
+
+// Engine A scenarios: requests that are in flight at the same time. The
+// fake leaves and the fake directory contain scheduling points inside
+// VirtualOpenChild/VirtualOpenSelf/VirtualRead/VirtualWrite/VirtualClose,
+// i.e. at places where the servers have dropped their locks, so that other
+// requests are processed while the original is parked inside the VFS.
+
+// results collects what the threads observed (part of the state key).
+type results struct {
+	mu sync.Mutex
+	m  map[string]string
+}
+
+func (r *results) set(k, v string) {
+	r.mu.Lock()
+	r.m[k] = v
+	r.mu.Unlock()
+}
+
+func (r *results) get(k string) string {
+	r.mu.Lock()
+	defer r.mu.Unlock()
+	return r.m[k]
+}
+
+func (r *results) dump() string {
+	r.mu.Lock()
+	defer r.mu.Unlock()
+	var ks []string
+	for k := range r.m {
+		ks = append(ks, k)
+	}
+	sort.Strings(ks)
+	var b strings.Builder
+	for _, k := range ks {
+		fmt.Fprintf(&b, "%s=%s;", k, r.m[k])
+	}
+	return b.String()
+}
+
+type concThread struct {
+	name string
+	run  func(w *world, x *mc.X, r *results)
+}
+
+type concEvent struct {
+	name string
+	fire func(w *world)
+}
+
+type concSpec struct {
+	name     string
+	props    []string
+	liveness []string
+	bounds   map[string]int
+	prefix   func(w *world, f failer)
+	threads  []concThread
+	events   []concEvent
+	// finish evaluates the scenario specific oracles after all threads
+	// are done; the common ones (no leaf fault, balanced after expiry,
+	// no records retained) follow.
+	finish func(w *world, x *mc.X, r *results)
+}
+
+func concScenario(s concSpec) *mc.Scenario {
+	if s.bounds == nil {
+		s.bounds = map[string]int{"quick": 3, "thorough": -1}
+	}
+	var cur struct {
+		w *world
+		r *results
+	}
+	// Every scenario also serves C14: no COMPOUND returns with a lock
+	// held, and the concurrent requests never deadlock.
+	props := append(append([]string(nil), s.props...), "C14")
+	liveness := append(append([]string(nil), s.liveness...), "C14")
+	return &mc.Scenario{
+		Name: s.name, Props: props, Liveness: liveness, Livelock: liveness, Panics: props, Bounds: s.bounds,
+		Build: func(x *mc.X) {
+			w := newWorld(x)
+			r := &results{m: map[string]string{}}
+			cur.w, cur.r = w, r
+			// The prefix runs on the controller: nothing is scheduled.
+			s.prefix(w, x)
+			w.inspect40()
+			w.inspect41()
+			for _, t := range s.threads {
+				t := t
+				x.Go(t.name, func() { t.run(w, x, r) })
+			}
+			for _, e := range s.events {
+				e := e
+				fired := false
+				x.AddEvent(&mc.Event{Name: e.name, Enabled: func() bool { return !fired }, Fire: func() { fired = true; e.fire(w) }, Cost: 1})
+			}
+			x.SetKey(func() string { return w.serverDump() + w.fs.dump() + r.dump() + w.clk.Now().Sub(epoch).String() })
+			x.Monitor("C18", func() {
+				w.fs.mu.Lock()
+				faults := append([]string(nil), w.fs.faults...)
+				w.fs.mu.Unlock()
+				for _, m := range faults {
+					fp := "closed-more-than-opened"
+					if strings.Contains(m, "in progress") || strings.Contains(m, "not open") {
+						fp = "io-on-closed-leaf"
+					}
+					x.FailP("C18", fp, "%s", m)
+				}
+			})
+		},
+		Finish: func(x *mc.X) {
+			w, r := cur.w, cur.r
+			x.Outcome("%s", r.dump())
+			w.checkFaults(x)
+			if s.finish != nil {
+				s.finish(w, x, r)
+			}
+			if mc.Active("C18") {
+				w.reclaimByExpiry(x, "after the concurrent requests")
+			}
+		},
+	}
+}
+
+func statusOf(res *nfsv4.Compound4res) string {
+	return fmt.Sprintf("%d/%d", res.Status, len(res.Resarray))
+}
+
+// --- NFSv4.0 helpers -------------------------------------------------------
+
+func raw40io(k ioKind, cl, owner, file string) func(w *world, x *mc.X, r *results) {
+	return func(w *world, x *mc.X, r *results) {
+		op := w.client40(cl).owner(owner).files[file]
+		res := w.compound(0, k.String(), putfh(op.leaf.handle), ioOp(k, op.sid))
+		r.set(k.String(), statusOf(res))
+	}
+}
+
+func raw40close(cl, owner, file string) func(w *world, x *mc.X, r *results) {
+	return func(w *world, x *mc.X, r *results) {
+		o := w.client40(cl).owner(owner)
+		op := o.files[file]
+		res := w.compound(0, "CLOSE", putfh(op.leaf.handle), &nfsv4.NfsArgop4_OP_CLOSE{Opclose: nfsv4.Close4args{Seqid: nextSeq(o.seq), OpenStateid: op.sid}})
+		r.set("CLOSE", statusOf(res))
+	}
+}
+
+func raw40downgrade(cl, owner, file string, access uint32) func(w *world, x *mc.X, r *results) {
+	return func(w *world, x *mc.X, r *results) {
+		o := w.client40(cl).owner(owner)
+		op := o.files[file]
+		res := w.compound(0, "OPEN_DOWNGRADE", putfh(op.leaf.handle), &nfsv4.NfsArgop4_OP_OPEN_DOWNGRADE{OpopenDowngrade: nfsv4.OpenDowngrade4args{Seqid: nextSeq(o.seq), OpenStateid: op.sid, ShareAccess: access}})
+		r.set("OPEN_DOWNGRADE", statusOf(res))
+	}
+}
+
+func raw40reregister(cl string) func(w *world, x *mc.X, r *results) {
+	return func(w *world, x *mc.X, r *results) {
+		res := w.compound(0, "SETCLIENTID", &nfsv4.NfsArgop4_OP_SETCLIENTID{Opsetclientid: nfsv4.Setclientid4args{
+			Client: nfsv4.NfsClientId4{Verifier: nfsv4.Verifier4{2}, Id: []byte(cl)},
+		}})
+		ok := res.Resarray[0].(*nfsv4.NfsResop4_OP_SETCLIENTID).Opsetclientid.(*nfsv4.Setclientid4res_NFS4_OK)
+		for i := 0; i < 2; i++ {
+			x.ResetLocal(fmt.Sprintf("confirm%d", i))
+			res := w.compound(0, "SETCLIENTID_CONFIRM", &nfsv4.NfsArgop4_OP_SETCLIENTID_CONFIRM{OpsetclientidConfirm: nfsv4.SetclientidConfirm4args{
+				Clientid: ok.Resok4.Clientid, SetclientidConfirm: ok.Resok4.SetclientidConfirm,
+			}})
+			r.set(fmt.Sprintf("CONFIRM%d", i), statusOf(res))
+			if res.Status == nfsv4.NFS4_OK {
+				break
+			}
+		}
+	}
+}
+
+func rawPoke(n int) func(w *world, x *mc.X, r *results) {
+	return func(w *world, x *mc.X, r *results) {
+		for i := 0; i < n; i++ {
+			x.ResetLocal(fmt.Sprintf("poke%d", i))
+			w.poke()
+		}
+	}
+}
+
+// --- NFSv4.1 helpers -------------------------------------------------------
+
+func raw41(cl string, slot uint32, what string, ops func(w *world) []nfsv4.NfsArgop4) func(w *world, x *mc.X, r *results) {
+	return func(w *world, x *mc.X, r *results) {
+		c := w.c41[cl]
+		s := c.session()
+		res := w.compound(1, what, append([]nfsv4.NfsArgop4{sequenceOp(s, slot, s.seq[slot]+1)}, ops(w)...)...)
+		r.set(what, statusOf(res))
+	}
+}
+
+func ops41io(k ioKind, cl, owner, file string) func(w *world) []nfsv4.NfsArgop4 {
+	return func(w *world) []nfsv4.NfsArgop4 {
+		op := open41of(w, cl, owner, file)
+		return []nfsv4.NfsArgop4{putfh(op.leaf.handle), ioOp(k, op.sid)}
+	}
+}
+
+func ops41close(cl, owner, file string) func(w *world) []nfsv4.NfsArgop4 {
+	return func(w *world) []nfsv4.NfsArgop4 {
+		op := open41of(w, cl, owner, file)
+		return []nfsv4.NfsArgop4{putfh(op.leaf.handle), &nfsv4.NfsArgop4_OP_CLOSE{Opclose: nfsv4.Close4args{OpenStateid: op.sid}}}
+	}
+}
+
+func ops41downgrade(cl, owner, file string, access uint32) func(w *world) []nfsv4.NfsArgop4 {
+	return func(w *world) []nfsv4.NfsArgop4 {
+		op := open41of(w, cl, owner, file)
+		return []nfsv4.NfsArgop4{putfh(op.leaf.handle), &nfsv4.NfsArgop4_OP_OPEN_DOWNGRADE{OpopenDowngrade: nfsv4.OpenDowngrade4args{OpenStateid: op.sid, ShareAccess: access}}}
+	}
+}
+
+func raw41newIncarnation(cl string) func(w *world, x *mc.X, r *results) {
+	return func(w *world, x *mc.X, r *results) {
+		res := w.compound(1, "EXCHANGE_ID", &nfsv4.NfsArgop4_OP_EXCHANGE_ID{OpexchangeId: nfsv4.ExchangeId4args{
+			EiaClientowner:  nfsv4.ClientOwner4{CoVerifier: nfsv4.Verifier4{2}, CoOwnerid: []byte(cl)},
+			EiaStateProtect: &nfsv4.StateProtect4A_SP4_NONE{},
+		}})
+		ok := res.Resarray[0].(*nfsv4.NfsResop4_OP_EXCHANGE_ID).OpexchangeId.(*nfsv4.ExchangeId4res_NFS4_OK)
+		for i := 0; i < 2; i++ {
+			x.ResetLocal(fmt.Sprintf("create%d", i))
+			res := w.compound(1, "CREATE_SESSION", createSessionArgs(ok.EirResok4.EirClientid, ok.EirResok4.EirSequenceid))
+			r.set(fmt.Sprintf("CREATE_SESSION%d", i), statusOf(res))
+			if res.Status == nfsv4.NFS4_OK {
+				break
+			}
+		}
+	}
+}
+
+func raw41destroy(cl string) func(w *world, x *mc.X, r *results) {
+	return func(w *world, x *mc.X, r *results) {
+		c := w.client41(cl)
+		s := c.session()
+		res := w.compound(1, "DESTROY_SESSION", &nfsv4.NfsArgop4_OP_DESTROY_SESSION{OpdestroySession: nfsv4.DestroySession4args{DsaSessionid: s.id}})
+		r.set("DESTROY_SESSION", statusOf(res))
+		x.ResetLocal("destroyed-session")
+		res = w.compound(1, "DESTROY_CLIENTID", &nfsv4.NfsArgop4_OP_DESTROY_CLIENTID{OpdestroyClientid: nfsv4.DestroyClientid4args{DcaClientid: c.id}})
+		r.set("DESTROY_CLIENTID", statusOf(res))
+	}
+}
+
+// balancedNow: the client has given up its only open and all I/O has
+// returned, so every leaf must be closed exactly as often as it was opened
+// already now, without waiting for any lease to expire.
+func balancedNow(what string) func(w *world, x *mc.X, r *results) {
+	return func(w *world, x *mc.X, r *results) {
+		if ok, msg := w.fs.balanced(); !ok {
+			x.FailP("C18", "concurrent/unbalanced-after-"+what, "after %s and the concurrent I/O both returned (%s): %s", what, r.dump(), msg)
+		}
+	}
+}
+
+func expectOK(keys ...string) func(w *world, x *mc.X, r *results) {
+	return func(w *world, x *mc.X, r *results) {
+		for _, k := range keys {
+			if !strings.HasPrefix(r.get(k), "0/") {
+				x.FailP("C18", "concurrent/entitled-refused/"+k, "%s with a valid state ID failed: %s", k, r.dump())
+			}
+		}
+	}
+}
+
+func both(fs ...func(w *world, x *mc.X, r *results)) func(w *world, x *mc.X, r *results) {
+	return func(w *world, x *mc.X, r *results) {
+		for _, f := range fs {
+			f(w, x, r)
+		}
+	}
+}
+
+// --- C19: duplicates of requests that are still being processed ------------
+
+func open40args(cl *client40, owner, file string, seq uint32) []nfsv4.NfsArgop4 {
+	return []nfsv4.NfsArgop4{&nfsv4.NfsArgop4_OP_PUTROOTFH{}, &nfsv4.NfsArgop4_OP_OPEN{Opopen: nfsv4.Open4args{
+		Seqid: seq, ShareAccess: accRead, ShareDeny: nfsv4.OPEN4_SHARE_DENY_NONE,
+		Owner: nfsv4.OpenOwner4{Clientid: cl.id, Owner: []byte(owner)}, Openhow: openflag(howNoCreate), Claim: &nfsv4.OpenClaim4_CLAIM_NULL{File: file},
+	}}}
+}
+
+func dup40(tag, cl, owner, file string, seqDelta uint32) func(w *world, x *mc.X, r *results) {
+	return func(w *world, x *mc.X, r *results) {
+		c := w.c40[cl]
+		seq := seqDelta
+		if o, ok := c.owners[owner]; ok {
+			seq += o.seq
+		}
+		res := w.compound(0, "OPEN", open40args(c, owner, file, seq)...)
+		r.set(tag, fmt.Sprintf("%d:%x", res.Status, encodeRes(res)))
+	}
+}
+
+func dup41(tag, cl string, slot uint32, file string) func(w *world, x *mc.X, r *results) {
+	return func(w *world, x *mc.X, r *results) {
+		c := w.c41[cl]
+		s := c.session()
+		res := w.compound(1, "OPEN41", sequenceOp(s, slot, s.seq[slot]+1), &nfsv4.NfsArgop4_OP_PUTROOTFH{}, &nfsv4.NfsArgop4_OP_OPEN{Opopen: nfsv4.Open4args{
+			ShareAccess: accRead, ShareDeny: nfsv4.OPEN4_SHARE_DENY_NONE,
+			Owner: nfsv4.OpenOwner4{Clientid: c.id, Owner: []byte("O9")}, Openhow: openflag(howNoCreate), Claim: &nfsv4.OpenClaim4_CLAIM_NULL{File: file},
+		}}, &nfsv4.NfsArgop4_OP_GETFH{})
+		r.set(tag, fmt.Sprintf("%d:%x", res.Status, encodeRes(res)))
+	}
+}
+
+// sameReply: the duplicate got the original's bytes and the VFS saw one
+// open of the file.
+func sameReply(file string, opensBefore int) func(w *world, x *mc.X, r *results) {
+	return func(w *world, x *mc.X, r *results) {
+		a, b := r.get("original"), r.get("duplicate")
+		if !strings.HasPrefix(a, "0:") {
+			x.FailP("C19", "concurrent/original-failed", "the original request failed: %s", a)
+			return
+		}
+		if a != b {
+			x.FailP("C19", "concurrent/duplicate-different-reply", "the duplicate that arrived while the original was being processed was answered differently:\noriginal  %s\nduplicate %s", a, b)
+		}
+		leaf := w.fs.linked[file]
+		if got := leaf.opens[bitRead]; got != opensBefore+1 {
+			x.FailP("C19", "concurrent/executed-twice", "original and in-flight duplicate: leaf %s was opened %d times instead of once", leaf.id, got-opensBefore)
+		}
+	}
+}
+
+func scenarios() []*mc.Scenario {
+	var out []*mc.Scenario
+	c18 := []string{"C18"}
+
+	// ---- C18, NFSv4.0 ----
+	p40 := prefix40Open("c1", "O1", "a", accBoth)
+	out = append(out,
+		concScenario(concSpec{name: "c40-read-close", props: c18, liveness: c18, prefix: p40,
+			threads: []concThread{{"io", raw40io(ioRead, "c1", "O1", "a")}, {"close", raw40close("c1", "O1", "a")}},
+			finish:  both(expectOK("CLOSE"), balancedNow("CLOSE"))}),
+		concScenario(concSpec{name: "c40-write-downgrade-close", props: c18, liveness: c18, prefix: p40,
+			threads: []concThread{{"io", raw40io(ioWrite, "c1", "O1", "a")}, {"downgrade", func(w *world, x *mc.X, r *results) {
+				raw40downgrade("c1", "O1", "a", accRead)(w, x, r)
+			}}},
+			finish: expectOK("OPEN_DOWNGRADE")}),
+		concScenario(concSpec{name: "c40-write-reregister", props: c18, liveness: c18, prefix: p40,
+			threads: []concThread{{"io", raw40io(ioWrite, "c1", "O1", "a")}, {"register", raw40reregister("c1")}}}),
+		concScenario(concSpec{name: "c40-read-expiry", props: c18, liveness: c18, prefix: p40,
+			threads: []concThread{{"io", raw40io(ioRead, "c1", "O1", "a")}, {"poke", rawPoke(2)}},
+			events:  []concEvent{{"clock+lease", func(w *world) { w.advance(pastLease) }}}}),
+	)
+
+	// ---- C18, NFSv4.1 ----
+	p41 := prefix41Open("d1", "O1", "a", accBoth)
+	out = append(out,
+		concScenario(concSpec{name: "c41-read-close", props: c18, liveness: c18, prefix: p41,
+			threads: []concThread{{"io", raw41("d1", 0, "READ", ops41io(ioRead, "d1", "O1", "a"))}, {"close", raw41("d1", 1, "CLOSE", ops41close("d1", "O1", "a"))}},
+			finish:  both(expectOK("CLOSE"), balancedNow("CLOSE"))}),
+		concScenario(concSpec{name: "c41-write-downgrade", props: c18, liveness: c18, prefix: p41,
+			threads: []concThread{{"io", raw41("d1", 0, "WRITE", ops41io(ioWrite, "d1", "O1", "a"))}, {"downgrade", raw41("d1", 1, "OPEN_DOWNGRADE", ops41downgrade("d1", "O1", "a", accRead))}},
+			finish:  expectOK("OPEN_DOWNGRADE")}),
+		concScenario(concSpec{name: "c41-write-new-incarnation", props: c18, liveness: c18, prefix: p41,
+			threads: []concThread{{"io", raw41("d1", 0, "WRITE", ops41io(ioWrite, "d1", "O1", "a"))}, {"register", raw41newIncarnation("d1")}}}),
+		concScenario(concSpec{name: "c41-read-destroy", props: c18, liveness: c18, prefix: p41,
+			threads: []concThread{{"io", raw41("d1", 0, "READ", ops41io(ioRead, "d1", "O1", "a"))}, {"destroy", raw41destroy("d1")}}}),
+		concScenario(concSpec{name: "c41-write-expiry", props: c18, liveness: c18, prefix: p41,
+			threads: []concThread{{"io", raw41("d1", 0, "WRITE", ops41io(ioWrite, "d1", "O1", "a"))}, {"poke", rawPoke(2)}},
+			events:  []concEvent{{"clock+lease", func(w *world) { w.advance(pastLease) }}}}),
+	)
+
+	// ---- C19: in-flight duplicates ----
+	c19 := []string{"C19"}
+	out = append(out,
+		// NFSv4.1: original parked in VirtualOpenChild, duplicate on the
+		// same slot with the same sequence number, an unrelated request
+		// on the other slot. (A request with the NEXT number of the same
+		// slot or owner may legitimately overtake the duplicate and
+		// invalidate it; "a new request proceeds normally" is checked
+		// sequentially.)
+		concScenario(concSpec{name: "c41-inflight-duplicate", props: []string{"C19", "C18"}, liveness: c19, prefix: prefix41Session("d1"),
+			threads: []concThread{{"original", dup41("original", "d1", 0, "a")}, {"duplicate", dup41("duplicate", "d1", 0, "a")}, {"other", dup41("other", "d1", 1, "b")}},
+			finish:  sameReply("a", 0)}),
+		// NFSv4.0, confirmed open-owner: original parked in
+		// VirtualOpenChild with the server lock dropped.
+		concScenario(concSpec{name: "c40-inflight-duplicate", props: []string{"C19", "C18"}, liveness: c19, prefix: prefix40Open("c1", "O1", "b", accRead),
+			threads: []concThread{{"original", dup40("original", "c1", "O1", "a", 1)}, {"duplicate", dup40("duplicate", "c1", "O1", "a", 1)}, {"other", dup40("other", "c1", "O2", "b", 1)}},
+			finish:  sameReply("a", 0)}),
+		// NFSv4.0, open-owner that the server has never seen.
+		concScenario(concSpec{name: "c40-inflight-duplicate-new-owner", props: []string{"C19", "C18"}, liveness: c19, prefix: prefix40Confirmed("c1"),
+			threads: []concThread{{"original", dup40("original", "c1", "O7", "a", 1)}, {"duplicate", dup40("duplicate", "c1", "O7", "a", 1)}},
+			finish:  sameReply("a", 0)}),
+	)
+	return out
+}
